@@ -699,11 +699,12 @@ def check_fallback_before_refusal(ctx, rep):
         rep.gap("find_timezone", "-", "not found")
         return 0
     search = {bi for bi, t in b.calls() if strip_generics(mir.callee_name(t) or "").split("::")[-1] in ("find_map", "find", "any", "position", "next", "try_fold", "filter_map")}
+    # every way of producing the result that is not a plain `Ok(..)`: an `Err(..)` built here, or the result of a call
+    # (`search.ok_or(err)`, `ok_or_else`, a helper) - each may be a refusal
     errs = set()
-    for bi in range(b.n):
-        for st in b.blocks[bi]["stmts"]:
-            if st["k"] == "assign" and not st["lhs"]["p"] and st["lhs"]["l"] == 0 and st["rv"]["k"] == "agg" and st["rv"].get("variant") == "Err":
-                errs.add(bi)
+    for bi, si, rv in b.defs().get(0, []):
+        if si == "term" or not (rv["k"] == "agg" and rv.get("variant") == "Ok"):
+            errs.add(bi)
     seen, todo, leak = set(), [0], None
     while todo:
         x = todo.pop()
@@ -717,8 +718,8 @@ def check_fallback_before_refusal(ctx, rep):
             break
         todo.extend(b.succ(x))
     key = "find_timezone:search-before-refusal"
-    if search and errs and leak is None:
-        rep.ok("T-ZONES", key, b.where(), "every Err result lies behind the prefix search")
+    if search and leak is None:
+        rep.ok("T-ZONES", key, b.where(), "every result other than a plain Ok lies behind the prefix search")
     else:
         rep.bad("T-ZONES", "T-ZONES:" + key, b.where(leak) if leak is not None else b.where(), "find_timezone can refuse a name without having tried the area prefixes (%s): names that only the prefix search resolves are rejected" % ("an Err is built on a path that avoids the search" if leak is not None else "no search / no Err result found"))
     return 1
